@@ -39,6 +39,7 @@ type CallAssert struct {
 type LoopSpec struct {
 	Invariants []Clause
 	Decreases  *Clause
+	Backedge   []Clause // proved at every back edge (events are those since the loop head); never assumed
 }
 
 type FuncContract struct {
@@ -400,6 +401,10 @@ func (c *Contracts) loadContractFile(path, pkgPath string) {
 				case "decreases":
 					cl := c.clause(body, pos)
 					ls.Decreases = &cl
+				case "backedge":
+					// loop N backedge assert label: expr
+					body = strings.TrimSpace(strings.TrimPrefix(body, "assert"))
+					ls.Backedge = append(ls.Backedge, c.clause(body, pos))
 				default:
 					c.errf("%s: bad loop clause kind %q", pos, f[1])
 				}
@@ -489,9 +494,12 @@ func (c *Contracts) parseSpec(rest, path, pkgPath, pos string) {
 	params := rest[open+1 : cl]
 	tail := rest[cl+1:]
 	eq := strings.Index(tail, "=")
+	uninterpreted := false
 	if eq < 0 {
-		c.errf("%s: spec without body", pos)
-		return
+		// no body: an uninterpreted function of its arguments
+		uninterpreted = true
+		eq = len(tail)
+		tail += "= true"
 	}
 	retSrc := strings.TrimSpace(tail[:eq])
 	bodySrc := strings.TrimSpace(tail[eq+1:])
@@ -528,6 +536,10 @@ func (c *Contracts) parseSpec(rest, path, pkgPath, pos string) {
 		return
 	}
 	sf.Body = be
+	if uninterpreted {
+		sf.Body = nil
+		sf.Src = ""
+	}
 	ast.Inspect(be, func(n ast.Node) bool {
 		if ce, ok := n.(*ast.CallExpr); ok {
 			if id, ok := ce.Fun.(*ast.Ident); ok && id.Name == name {
